@@ -8,17 +8,17 @@ namespace HtmlVerif
 
 /-! ### whitespace -/
 
-def AllWs (s : Str) : Prop := ∀ c ∈ s, isWs c = true
+def AllWs (s : Str) : Prop := ∀ c ∈ s, jsonIsWs c = true
 
 theorem skipWs_allWs (pre X : Str) (h : AllWs pre) : skipWs (pre ++ X) = skipWs X := by
   induction pre with
   | nil => rfl
   | cons c cs ih =>
-    have hc : isWs c = true := h c (by simp)
+    have hc : jsonIsWs c = true := h c (by simp)
     have : AllWs cs := fun d hd => h d (by simp [hd])
     simp [skipWs, hc, ih this]
 
-theorem skipWs_cons (c : Char) (X : Str) (h : isWs c = false) : skipWs (c :: X) = c :: X := by
+theorem skipWs_cons (c : Char) (X : Str) (h : jsonIsWs c = false) : skipWs (c :: X) = c :: X := by
   simp [skipWs, h]
 
 theorem nlInd_allWs (ind : Option Nat) (lvl : Nat) : AllWs (nlInd ind lvl) := by
@@ -47,7 +47,7 @@ theorem sepWs_allWs (ind : Option Nat) (lvl : Nat) : AllWs (sepWs ind lvl) := by
 
 def ValHead (c : Char) : Prop := c = 'n' ∨ c = 't' ∨ c = 'f' ∨ c = '"' ∨ c = '[' ∨ c = '{'
 
-theorem ValHead.notWs {c : Char} (h : ValHead c) : isWs c = false := by
+theorem ValHead.notWs {c : Char} (h : ValHead c) : jsonIsWs c = false := by
   rcases h with rfl | rfl | rfl | rfl | rfl | rfl <;> decide
 
 theorem ValHead.ne_rbracket {c : Char} (h : ValHead c) : c ≠ ']' := by
@@ -74,23 +74,23 @@ theorem parseVal_ws (f : Nat) (pre X : Str) (h : AllWs pre) : parseVal f (pre ++
 
 theorem parseVal_str (f : Nat) (r x r' : Str) (h : parseStrBody r.length r = some (x, r')) :
     parseVal (f + 1) ('"' :: r) = some (.str x, r') := by
-  rw [parseVal]; simp [skipWs, isWs, h]
+  rw [parseVal]; simp [skipWs, jsonIsWs, h]
 
 theorem parseVal_arr_nil (f : Nat) (r : Str) : parseVal (f + 1) ('[' :: ']' :: r) = some (.arr .nil, r) := by
-  rw [parseVal]; simp [skipWs, isWs]
+  rw [parseVal]; simp [skipWs, jsonIsWs]
 
 theorem parseVal_obj_nil (f : Nat) (r : Str) : parseVal (f + 1) ('{' :: '}' :: r) = some (.obj .nil, r) := by
-  rw [parseVal]; simp [skipWs, isWs]
+  rw [parseVal]; simp [skipWs, jsonIsWs]
 
 theorem parseVal_arr (f : Nat) (r tail : Str) (c : Char) (xs : JList) (r'' : Str)
     (hs : skipWs r = c :: tail) (hc : c ≠ ']') (he : parseElems f r = some (xs, r'')) :
     parseVal (f + 1) ('[' :: r) = some (.arr xs, r'') := by
-  rw [parseVal]; simp [skipWs, isWs, hs, hc, he]
+  rw [parseVal]; simp [skipWs, jsonIsWs, hs, hc, he]
 
 theorem parseVal_obj (f : Nat) (r tail : Str) (c : Char) (ms : JMems) (r'' : Str)
     (hs : skipWs r = c :: tail) (hc : c ≠ '}') (he : parseMems f r = some (ms, r'')) :
     parseVal (f + 1) ('{' :: r) = some (.obj ms, r'') := by
-  rw [parseVal]; simp [skipWs, isWs, hs, hc, he]
+  rw [parseVal]; simp [skipWs, jsonIsWs, hs, hc, he]
 
 theorem parseElems_last (f : Nat) (s r r' : Str) (v : Json) (hv : parseVal f s = some (v, r))
     (hs : skipWs r = ']' :: r') : parseElems (f + 1) s = some (.cons v .nil, r') := by
@@ -178,10 +178,10 @@ mutual
         parseVal f (printVal enc ind lvl v ++ rest) = some (v, rest)
     | .null, _, f, rest, hf => by
       obtain ⟨f, rfl⟩ : ∃ g, f = g + 1 := ⟨f - 1, by simp [Json.size] at hf; omega⟩
-      simp [parseVal, printVal, skipWs, isWs]
+      simp [parseVal, printVal, skipWs, jsonIsWs]
     | .bool b, _, f, rest, hf => by
       obtain ⟨f, rfl⟩ : ∃ g, f = g + 1 := ⟨f - 1, by simp [Json.size] at hf; omega⟩
-      cases b <;> simp [parseVal, printVal, skipWs, isWs]
+      cases b <;> simp [parseVal, printVal, skipWs, jsonIsWs]
     | .str s, lvl, f, rest, hf => by
       obtain ⟨f, rfl⟩ : ∃ g, f = g + 1 := ⟨f - 1, by simp [Json.size] at hf; omega⟩
       have e : printVal enc ind lvl (.str s) ++ rest = '"' :: (enc s ++ '"' :: rest) := by
